@@ -66,6 +66,10 @@ CHECKS = {
    "deterministic simulation: request histories with transport faults under a simulated (paused) clock",
    "Same runs plus unknown paths/methods, wrong content types, malformed and mutated bodies, and transport faults: arbitrary chunk boundaries, a client that stalls forever (the simulated clock runs to the 30 s TimeoutLayer in microseconds), bodies over the limit with and without Content-Length. Every request must resolve; 2xx bodies must have the documented shape, every non-2xx body must be {error:{type,reason}}; classes known by construction get their code (4xx invalid, 404 no index/unknown path, 405, 409 second init, 413 oversize, 504 stall); /healthz stays 200.",
    "Same as C23; the 'however malformed' input space is only sampled - simulation contributes the transport/time dimension and cross-request state.", "3 C24, 2.6"),
+ "C27": ("idb", "exploration",
+   "deterministic simulation: simulated browser event loop + IndexedDB under the real wasm persistence layer",
+   "searchlite-wasm's wasm.rs is compiled natively (cfg twins for spawn_local, persist_file, delete_file, load_snapshot, JS error values) and driven by page scripts of 1-5 commits (awaited, fire-and-forget, mixed, with and without new documents); the simulator decides which macrotask comes next (page step vs. completion of the oldest IndexedDB transaction), drains the FIFO microtask queue in between, and closes the page before any macrotask with the in-flight transaction committed or aborted; a fresh page then runs init on the surviving store: it must open, hold exactly the documents of a prefix of the started commits that includes every resolved non-empty commit, and a further add+commit must keep them.",
+   "Adversary R (FIFO tasks, transactions complete in creation order - what wasm-bindgen-futures and the IndexedDB specification give); arbitrary orders are exploration only (VERIF_IDB_LOOSE), see DESIGN.", "3 C27, 2.6"),
  "C28": ("model", "exploration",
    "deterministic simulation with a path monitor on the file-system seam",
    "Relocate is a generated operation: the index directory is copied inside SimFs, the original kept / emptied / removed, the copy opened and the history continues (search, add, commit, compaction); contents must equal the model, no FS primitive may touch a path outside the new root, the original's files must stay byte-identical.",
@@ -89,7 +93,7 @@ def main():
     na = [{"property_id": k, "reason": v} for k, v in sorted(NA.items())]
     pending = {
 
-      "C27": "E4 idb",
+      
     }
     for k, v in sorted(pending.items()):
         if k not in CHECKS:
@@ -109,6 +113,7 @@ def main():
         {"name": "E1", "path": "/verif/sim/src/{simfs,crash,model,work,e1_*}.rs", "serves_properties": ["C01","C02","C03","C04","C14","C17","C28"], "kind_free_text": "single-threaded deterministic simulation of searchlite-core on a simulated disk (SimFs) with crash-image enumeration, fault plans, media faults, path monitor and reference model"},
         {"name": "E2", "path": "/verif/sim/src/{sched,e2}.rs", "serves_properties": ["C05","C06"], "kind_free_text": "real threads under a seeded baton scheduler (one runs at a time; yield points at lock hooks, FS primitives, call boundaries) + Wing-Gong linearizability check against the reference model"},
         {"name": "E3", "path": "/verif/sim/e3http/src/main.rs", "serves_properties": ["C23","C24"], "kind_free_text": "the real axum router driven in-process as a tower Service on a current-thread tokio runtime with paused clock; simulated clients with chunking, stalls and oversize bodies; queue model + response-shape oracle"},
+        {"name": "E4", "path": "/verif/sim/e4idb/src/{main,verif_idb}.rs", "serves_properties": ["C27"], "kind_free_text": "searchlite-wasm's wasm.rs compiled natively on a simulated single-threaded browser host: FIFO microtask queue, IndexedDB with ordered transactions, page scripts, page close at any macrotask boundary"},
       ],
       "checks": checks,
       "not_applicable": sorted(na, key=lambda x: x["property_id"]),
